@@ -1593,6 +1593,41 @@ def long_lines(ctx, exe):
                                        "the same way are compared with the model case by case (kinds write-mid-*)")
 
 
+def failing_sink(ctx, exe):
+    """a sink whose first Write takes k bytes and fails, and which works again afterwards: what reaches it later must still be
+    whole scrubbed lines (implementation only: the model has no failing sink; the reference lines are Scrub's own, which the
+    other stages judge)"""
+    rng = ctx.rng
+    texts = [b"connection from 198.51.100.113:54321 closed\nnext line 10.1.2.3 here\n", b"a [2001:db8:aaaa:bbbb:cccc:dddd:1:2]:443 b\nplain\n",
+             b"1.2.3.4 5.6.7.8 9.10.11.12\nsecond 192.0.2.77:9\nthird\n", b"no address here\nnone here either\n"]
+    for _ in range(6 if ctx.tier == "quick" else 60):
+        texts.append(rand_stream(rng))
+    cases = []
+    for st in texts:
+        if b"\n" not in st:
+            continue
+        first = st.index(b"\n") + 1
+        ks = sorted(set([0, 1, 2, first // 2, first - 1, first] + [rng.randrange(0, first + 1) for _ in range(6)] + list(range(10, min(first, 60), 3))))
+        rest = st[first:]
+        for k in ks:
+            tail = [rest + b"tail 203.0.113.9 end\n"] if rng.random() < 0.5 else [rest, b"tail 203.0.113.9 end\n"]
+            cases.append("%s writef %d %s" % (AREA, k, ",".join(hx(c) for c in [st[:first]] + [c for c in tail if c])))
+            cases.append("%s writef %d %s" % (AREA, k, ",".join(hx(c) for c in [st, b"more 192.0.2.1\n"])))
+    rc, out, err = vlib.run_impl(exe, cases, timeout=300)
+    out += ["!died"] * (len(cases) - len(out))
+    for l, r in zip(cases, out):
+        ctx.count(l[:300], kind="write-failing-sink")
+        if r in ("ok", "nofail"):
+            continue
+        if r.startswith("partial"):
+            ctx.violation("partial-line-after-sink-failure", "after a Write of the sink that took %s bytes and failed, the scrubber handed the sink a line that is "
+                          "not the scrubbed form of a complete line of the input: %r (only complete lines are ever emitted; a line that starts "
+                          "in the middle of an address shows the rest of it)" % (l.split(" ")[2], bytes.fromhex(r.split(" x")[1])[:120]),
+                          dict(label="write-failing-sink", case=l[:4000], impl=r[:400]))
+        else:
+            ctx.violation("driver-crash", "safelog driver answered %s to a failing-sink case" % r[:200], dict(label="write-failing-sink", case=l[:4000]))
+
+
 def run(ctx):
     ctx.trusted += ["harness/overlay/zz_verif/regex2coq (Go regexp/syntax parser -> Coq term) and the in-package pattern dump",
                     "Go's regexp engine: modelled by the leftmost-first backtracking matcher of coq/Model/Regex.v, tied by correspondence only",
@@ -1634,6 +1669,7 @@ def run(ctx):
     model, impl = ctx.correspond(exe, lines, kinds, label="write", prop=prop, key_of=key_of, crosscheck=6)
     split_dependence(ctx, groups, dict(zip(lines, impl)), dict(zip(lines, model)), "write-split")
     long_lines(ctx, exe)
+    failing_sink(ctx, exe)
     lines, kinds = [], []
     gen_conc(ctx, add)
     race = ctx.tier == "thorough"
